@@ -228,7 +228,8 @@ fn gen_c01(tier: &str, rng: &mut Rng, emit: &mut dyn FnMut(Op)) {
     bound_extension_family(emit);
     // ignored characters inside a candidate's version (NUL, '+', '~', blanks, non-ASCII) are
     // skipped and what FOLLOWS them still counts — through best_match as well
-    for (a, b2) in [("1\0.5", "1.2"), ("1.0\0nb3", "1.0nb1"), ("2\0rc1", "2.0"), ("1+.5", "1.2"), ("1~nb4", "1nb2"), ("1 .9", "1.5"),
+    for (a, b2) in [("1.0nb+5", "1.0.4"), ("1.0nb+5", "1.0nb9"), ("1.0nb-3", "1.0.2"), ("1nb3.0", "1nb3.0nb1"), ("1.0NB3nb2", "1.0NB3"),
+        ("1\0.5", "1.2"), ("1.0\0nb3", "1.0nb1"), ("2\0rc1", "2.0"), ("1+.5", "1.2"), ("1~nb4", "1nb2"), ("1 .9", "1.5"),
         ("1\u{e9}.5", "1.2"), ("1.0\0", "1.0"), ("\0002", "1")] {
         for pat in ["pkg-[0-9]*", "pkg-*", "pkg>=0"] {
             emit(Op::s("pattern.best", &[pat, &format!("pkg-{}", a), &format!("pkg-{}", b2)]));
@@ -1182,6 +1183,14 @@ fn gen_c06(tier: &str, rng: &mut Rng, emit: &mut dyn FnMut(Op)) {
 pub fn gen(id: &str, tier: &str, rng: &mut Rng, emit: &mut dyn FnMut(Op)) {
     match id {
         "C17" => {
+            for (p, ns) in [("foo-1.0{,nb[0-9]*}", vec!["foo-1.0nb", "foo-1.0n", "foo-1.0", "foo-1.0nb1", "foo-1.", ""]),
+                ("foo-1.0{,nb*}", vec!["foo-1.0nb", "foo-1.0n", "foo-1.0nbnb"]), ("a{,nb[0-9]*}", vec!["anb", "an", "a", "anb1"]),
+                ("{,nb[0-9]*}", vec!["nb", "n", "", "nb1"])] {
+                for n in ns {
+                    emit(Op::s("pattern.match", &[p, n]));
+                    emit(Op::s("pattern.best", &[p, n, n]));
+                }
+            }
             // mutations of every other generator's ops (and the ops themselves, sampled)
             let mut pool: Vec<Op> = vec![];
             for pid in ["C01", "C02", "C03", "C04", "C05", "C06", "C18", "C19"] {
